@@ -111,31 +111,65 @@ NOT_OWN = {
  "C08-G": "the change is in the async reader's stream(); C08's statement is about the borrowing reader. Detected by C02 and C03",
  "C08-H": "the change is in read_to_end's span; C08 does not call it. Detected by C12, whose statement it breaks",
  "C16-H": "the change is in read_to_end called for an ancestor from inside an expanded empty child; C16's probe calls read_to_end for the element just opened. Detected by C12",
- "C20-G": "NOT DETECTED by any check: needs documents that use namespace prefixes, which are not interleavings of a serialization (C20's domain)",
- "C20-H": "NOT DETECTED by any check: needs an xsi:nil element, which the serializer never writes, so no interleaving of a serialization contains one (C20's domain)",
 }
-# rounds two to six: change / needs are taken from the agent's NOTES.md
+TITLE7 = {
+ "C04-I": "with name checks off, start tags are no longer recorded once 256 elements are open",
+ "C04-J": "names in MismatchedEndTag / UnmatchedEndTag are built with from_utf8_lossy instead of the reader's decoder",
+}
+# round 7: strengthenings that the misses led to
+MISSED_FIRST.update({
+ "C02-J": "no cut set had pieces of 32 bytes or more inside one attribute value; C02 now adds cut sets with pieces of 8..160 bytes and, for the scale documents, pieces of 31/32/33/64/128/1024/8192 bytes (predicted from the agent's summary and strengthened before the first run)",
+ "C03-I": "no DOCTYPE with hundreds of unbalanced '<'; the scale workload (gen::scale_docs: lengths, counts and depths at and around 32..8192) has that kind (strengthened before the first run)",
+ "C03-J": "every source had a fixed length; C03 now has a buffered source that reports end of input and delivers more bytes once Eof / a syntax error has been returned (strengthened before the first run)",
+ "C04-I": "nesting never went past a few dozen; C04 now runs the deep scale documents under every setting with the name check switched off and on again at several depths (strengthened before the first run)",
+ "C06-J": "no type had element names that are prefixes of one another; NamePrefix family type added (t_n list, t_nx, t_nxy list, t_nxyz)",
+ "C08-I": "written-back markup never had a delimiter + content length of exactly 118..128 bytes; the scale workload now has every size 108..136 for every kind, and events are written by reference and by value in turn (strengthened before the first run)",
+ "C09-I": "the short-write sinks only implemented write(); ShortSink now has a real write_vectored that stops inside any of the buffers (strengthened before the first run)",
+ "C09-J": "the element builder was only used at depth 0; it now also runs below 62..129 open elements of an indenting writer, where indent + additional indent crosses 128 bytes (strengthened before the first run)",
+ "C11-I": "attribute names were at most 5 bytes; generated lists now repeat keys of 63..130 bytes",
+ "C11-J": "CR never stood directly behind an unquoted value or between attributes; separators now include CR and CR LF",
+ "C12-J": "only the first event behind a skipped element was compared; now the whole remaining trace of the clone must equal the uncloned run's (open-element stack damage shows at the parent's end tag)",
+ "C17-I": "the state-machine probe only had a first declaration that changes the encoding; it now runs every (first label incl. UTF-8 with and without BOM, second label) pair on slice and buffered sources",
+ "C17-J": "payloads were at most 5 characters (an attempt at long ones stopped at ~200); now one document in 25 has payloads of 400..1200 characters, and decode_into must agree with decode on every payload",
+ "C19-I": "no $text variant that is a tuple stood in a $value list; TextListVar serialize-only shapes added (strengthened before the first run)",
+ "C19-J": "no Serialize impl opened a sequence of unknown length without writing an item; NoItems / Filtered (collect_seq over a filtering iterator) shapes added (strengthened before the first run)",
+ "C20-G": "not detected in round 6 (no document with namespace prefixes went through the overlapped-lists code); C20 now also interleaves hand-written presentations of the contiguous document: prefixed names, xsi:nil elements, unknown children and attributes, comments, CDATA (accepted when the decorated contiguous form still gives the value)",
+ "C20-H": "not detected in round 6 (no xsi:nil element was ever buffered); same strengthening as C20-G, plus the wrapped shapes that declare the xsi prefix on an ancestor (on the container itself the unchanged tree already fails: known finding F12)",
+ "C20-J": "no container was a map or a struct with a flattened member; WrapOvlFlat and WrapOvlMap shapes added (strengthened before the first run)",
+})
+NOT_OWN.update({
+ "C15-J": "the change is in NamespaceResolver::pop_to (NsReader::read_to_end), i.e. C05's statement, and C05 reports it; for the deserializer it only matters through xsi:nil on hand-written documents",
+})
+OBSOLETE = {
+ "C15-I": "confirmed and detected by C15 on the tree it was written for (53ee924); it only made the defective Content::Owned arm of ListIter reachable, and that arm was repaired as F13 (5256764): on the repaired tree the change is harmless (its own demo passes with it, CONFIRM-on-repaired-tree-5256764.txt)",
+ "C14-J": "written against 5256764: it added the start-trimmer reset to IoReader::read_to_end only. The repair F14 (5c98377) adds that reset to both readers, so the patch no longer applies and the difference it created cannot exist; detected by C14 on the tree it was written for",
+}
+# rounds two to seven: change / needs are taken from the agent's NOTES.md
 def from_notes(d):
     t = open(d + '/NOTES.md').read()
     title = t.split('\n', 1)[0].lstrip('# ').strip()
     title = re.sub(r'^(Seed [AB] \(C\d\d(, [^)]*)?\)|C\d\d */ *seed [AB]|Seed [AB])\s*[-—:]+\s*', '', title)
+    title = re.sub(r'^(Seed(ed change)? [AB] \(C\d\d(, [^)]*)?\)|C\d\d */ *(seed )?[AB]|Seed(ed change)? [AB]( \(property C\d\d\))?)\s*[-—:]*\s*', '', title)
+    title = re.sub(r'^[AB] — ', '', title)
     m = re.search(r'## What is needed[^\n]*\n(.*?)(\n## |\Z)', t, re.S)
     needs = re.sub(r'\s+', ' ', m.group(1)).strip()[:600] if m else ''
     return title, needs
 for d in sorted(os.listdir('/verif/seeded')):
-    if re.fullmatch(r'C\d\d-[C-H]', d):
+    if re.fullmatch(r'C\d\d-[C-J]', d):
         S[d] = from_notes('/verif/seeded/' + d)
+        if d in TITLE7:
+            S[d] = (TITLE7[d], S[d][1])
 res = {}
 if os.path.exists('/verif/seeded/RESULTS.txt'):
     for l in open('/verif/seeded/RESULTS.txt'):
-        m = re.match(r'(C\d\d-[A-H])/patch.diff (C\d\d) exit=(\d+)(.*)', l)
+        m = re.match(r'(C\d\d-[A-J])(?:/patch.diff)? (C\d\d) exit=(\d+)(.*)', l)
         if m:
             res.setdefault(m.group(1), []).append({"check": m.group(2), "exit": int(m.group(3)), "first_detail": m.group(4).strip()[:240]})
 for k, (change, needs) in S.items():
     d = '/verif/seeded/' + k
     conf = open(d + '/CONFIRM.txt').read().strip().split('\n') if os.path.exists(d + '/CONFIRM.txt') else []
     meta = {
-        "property": k[:3], "variant": k[4:], "round": 6 if k[4:] in "GH" else (5 if k[:3] in ROUND3 else 4) if k[4:] in "EF" else (3 if k[:3] in ROUND3 else 2) if k[4:] in "CD" else 1, "written_by": "fresh sub-agent given only the property text and a scratch worktree (nothing from /verif)",
+        "property": k[:3], "variant": k[4:], "round": 7 if k[4:] in "IJ" else 6 if k[4:] in "GH" else (5 if k[:3] in ROUND3 else 4) if k[4:] in "EF" else (3 if k[:3] in ROUND3 else 2) if k[4:] in "CD" else 1, "written_by": "fresh sub-agent given only the property text and a scratch worktree (nothing from /verif)",
         "change": change, "needs_to_manifest": needs,
         "confirmed_by_me": {"how": "tools/confirm_seed.sh in the scratch worktree: patch applies; default-feature suite passes with it (all-features too where ALLFEAT=1); demo fails with it; demo passes without it", "log": conf},
         "checks_run_against_it": res.get(k, []),
@@ -149,5 +183,7 @@ for k, (change, needs) in S.items():
         meta["not_detected_by_own_property"] = NOT_OWN[k]
     if k in MISSED_FIRST:
         meta["missed_at_first"] = MISSED_FIRST[k]
+    if k in OBSOLETE:
+        meta["obsolete_on_current_tree"] = OBSOLETE[k]
     json.dump(meta, open(d + '/meta.json', 'w'), indent=1)
 print(len(S), "meta files;", sum(1 for k in S if any(r['exit']==1 for r in res.get(k, []))), "detected")
